@@ -107,23 +107,58 @@ theorem core (c : Class) (env : Env) (sp : Special) (outs refs : List Fixed64)
       | [], _, hrej => exact absurd (by simp [specialStep]) hrej
       | _ :: _ :: _, _, hrej => exact absurd (by simp [specialStep]) hrej
 
-theorem sanity_fixed (c : Class) (env : Env) (n : Nat) (outs : List Fixed64)
-    (h : sanity .fixed c env n outs = .ok) :
-    outputOK c env n outs = true ∧ totalOK outs = true := by
+theorem sanity_fixed (c : Class) (env : Env) (ins : List In) (outs : List Fixed64)
+    (h : sanity .fixed c env ins outs = .ok) :
+    inputOK .fixed c env ins = true ∧ outputOK c env ins.length outs = true ∧ totalOK outs = true := by
   unfold sanity at h
   split at h
   · cases h
-  · split at h
+  · rename_i h0
+    split at h
     · cases h
     · split at h
       · cases h
       · rename_i h1 h2
-        constructor
-        · simpa using h1
-        · simpa using h2
+        refine ⟨by simpa using h0, by simpa using h1, by simpa using h2⟩
 
-theorem sanity_pre (c : Class) (env : Env) (n : Nat) (outs : List Fixed64)
-    (h : sanity .pre c env n outs = .ok) : outputOK c env n outs = true := by
+theorem noDup_iff (l : List Nat) : noDup l = true ↔ l.Nodup := by
+  induction l with
+  | nil => simp [noDup]
+  | cons x xs ih =>
+    simp only [noDup, Bool.and_eq_true, Bool.not_eq_true', List.nodup_cons, ih]
+    constructor
+    · rintro ⟨h1, h2⟩
+      exact ⟨by simpa using h1, h2⟩
+    · rintro ⟨h1, h2⟩
+      exact ⟨by simpa using h1, h2⟩
+
+/-- whatever the class, inputs that pass the (fixed) input check reference pairwise distinct
+    previous outputs -/
+theorem inputOK_distinct (c : Class) (env : Env) (ins : List In)
+    (h : inputOK .fixed c env ins = true) : (ins.map (·.op)).Nodup := by
+  have hnil : ins.length = 0 → (ins.map (·.op)).Nodup := by
+    intro h0
+    have : ins = [] := List.eq_nil_of_length_eq_zero h0
+    subst this; simp
+  have hd : inputsDistinct ins = true → (ins.map (·.op)).Nodup := fun h => (noDup_iff _).mp h
+  unfold inputOK at h
+  cases c <;> simp only [] at h
+  case coinbase =>
+    match ins, h with
+    | [i], _ => simp
+  case zero => exact hnil (by simpa using h)
+  case sidePow =>
+    rcases Bool.or_eq_true _ _ |>.mp h with h | h
+    · exact hnil (by simpa using h)
+    · exact hd h
+  case activate =>
+    split at h
+    · exact hd (by simpa using h)
+    · exact hnil (by simpa using h)
+  all_goals exact hd (by simp only [Bool.and_eq_true] at h; exact h.2)
+
+theorem sanity_pre (c : Class) (env : Env) (ins : List In) (outs : List Fixed64)
+    (h : sanity .pre c env ins outs = .ok) : outputOK c env ins.length outs = true := by
   unfold sanity at h
   split at h
   · cases h
